@@ -51,6 +51,19 @@ for i in range(1, 21):
 rows.append("")
 rows.append(f"The whole quick suite took {total/60:.0f} min of wall clock on 16 idle cores (sum of the runs above, builds not included).")
 table = "\n".join(rows) + "\n\n"
+# last validation of the thorough tier (thorough_validation.tsv is written by hand from the logs of those runs)
+import os
+if os.path.exists("/verif/thorough_validation.tsv"):
+    t = ["Last validation of the thorough tier on the unchanged tree (all exit 0; four checks at a time on the 16 cores and",
+         "with `VERIF_MEM_CAP_MB=3072`, so each got about a quarter of the machine - alone, a run gets deeper within the same budget):", "",
+         "| id | states | transitions | evaluations | wall |", "|---|---|---|---|---|"]
+    for l in open("/verif/thorough_validation.tsv"):
+        f = l.rstrip("\n").split("\t")
+        if len(f) < 6:
+            continue
+        num = lambda x: fmt(int(x)) if x.isdigit() else "-"
+        t.append(f"| {f[0]} | {num(f[2])} | {num(f[3])} | {num(f[4])} | {f[5].replace('wall=', '').replace('s', ' s')} |")
+    table += "\n".join(t) + "\n\n"
 
 p = "/verif/DESIGN.md"
 s = open(p).read()
